@@ -222,7 +222,9 @@ def run(spec):
 
 # ---------------------------------------------------------------------------------------------- model level
 DESC_TEXTS = COMMENT_WORDS + ['Exogenous Variables', 'exogenous = [1, 2]', '# Exogenous Variables', 'EXOGENOUS', 'x=y # z',
-                              'MaxTime = 0', 'k', 'F(k-1)', 'a "quoted" name', "O'Brien", '100% (approx.) = 1.0', '']
+                              'MaxTime = 0', 'k', 'F(k-1)', 'a "quoted" name', "O'Brien", '100% (approx.) = 1.0', '',
+                              # LaTeX-style subscripts, str.format fields, a lone brace, printf conversions
+                              'C_{t}', 'H_{t-1}', 'field {0} of {1}', '{', '%s %d', 'rate {r:.2f}']
 
 
 @st.composite
@@ -230,7 +232,8 @@ def model_case(draw):
     from harness import econ
     spec = draw(econ.economy(zones=(1, 2), horizon=(2, 3)))
     texts = draw(st.lists(comment_text(DESC_TEXTS, 0), min_size=3, max_size=8))
-    return {'spec': spec, 'texts': texts}
+    # the descriptions are also what gets logged: logging may be switched on while the model is put together
+    return {'spec': spec, 'texts': texts, 'log': draw(st.booleans())}
 
 
 def run_model(case_):
@@ -245,7 +248,20 @@ def run_model(case_):
         return texts[counter[0] % len(texts)]
 
     plain = econ.build(spec)
-    fancy = econ.build(spec, desc=desc)
+    if case_.get('log'):
+        import os
+        import shutil
+        import tempfile
+        from sfc_models.utils import Logger
+        tmp = tempfile.mkdtemp(prefix='c14_')
+        try:
+            Logger.register_standard_logs(os.path.join(tmp, 'run'))
+            fancy = econ.build(spec, desc=desc)
+        finally:
+            Logger.cleanup()
+            shutil.rmtree(tmp, ignore_errors=True)
+    else:
+        fancy = econ.build(spec, desc=desc)
     if (plain.error is None) != (fancy.error is None):
         raise Violation('C14/description-changes-outcome', 'plain descriptions: %r; adversarial descriptions %r: %r' %
                         (plain.error, texts, fancy.error))
